@@ -661,15 +661,17 @@ class IntermediateCodeGen(AbstractCodeGen):
         # symbol (oid as defval) or name for enumeration member
         else:
             # oid
-            if (defvalType[0][0] == 'ObjectIdentifier' and
-                    (defval in self.symbolTable[self.moduleName[0]] or
-                     defval in self._importMap)):
+            oidName = not isinstance(defval, list) and self.transOpers(defval)
 
-                module = self._importMap.get(defval, self.moduleName[0])
+            if (defvalType[0][0] == 'ObjectIdentifier' and
+                    (oidName in self.symbolTable[self.moduleName[0]] or
+                     oidName in self._importMap)):
+
+                module = self._importMap.get(oidName, self.moduleName[0])
 
                 try:
                     val = str(self.genNumericOid(
-                        self.symbolTable[module][defval]['oid']))
+                        self.symbolTable[module][oidName]['oid']))
 
                     outDict.update(
                         value=val,
